@@ -7,8 +7,8 @@ args = sys.argv[1:]
 rnd = 1
 if args and args[0] == '--round':
     rnd = int(args[1]); args = args[2:]
-SRC = {1: '/tmp/seed/out', 2: '/tmp/seed2/out', 3: '/tmp/seed3/out', 4: '/tmp/seed4/out', 5: '/tmp/seed5/out'}[rnd]
-NAMES = {1: {'A': 'A', 'B': 'B'}, 2: {'A': 'C', 'B': 'D'}, 3: {'A': 'E', 'B': 'F'}, 4: {'A': 'G', 'B': 'H'}, 5: {'A': 'I', 'B': 'J'}}[rnd]
+SRC = {1: '/tmp/seed/out', 2: '/tmp/seed2/out', 3: '/tmp/seed3/out', 4: '/tmp/seed4/out', 5: '/tmp/seed5/out', 6: '/tmp/seed6/out'}[rnd]
+NAMES = {1: {'A': 'A', 'B': 'B'}, 2: {'A': 'C', 'B': 'D'}, 3: {'A': 'E', 'B': 'F'}, 4: {'A': 'G', 'B': 'H'}, 5: {'A': 'I', 'B': 'J'}, 6: {'A': 'K', 'B': 'L'}}[rnd]
 for prop in args:
     src = f'{SRC}/{prop}'
     meta = json.load(open(os.path.join(src, 'meta.json'))) if os.path.exists(os.path.join(src, 'meta.json')) else {'changes': []}
@@ -18,7 +18,7 @@ for prop in args:
         dst = os.path.join(HERE, 'seeded', f'{prop}-{NAMES[name]}')
         os.makedirs(dst, exist_ok=True)
         shutil.copy(os.path.join(src, f'{name}.diff'), os.path.join(dst, 'patch.diff'))
-        demo = open(os.path.join(src, f'demo_{name}.py')).read().replace('/tmp/seed2/', '/tmp/seed/').replace('/tmp/seed3/', '/tmp/seed/').replace('/tmp/seed4/', '/tmp/seed/').replace('/tmp/seed5/', '/tmp/seed/')
+        demo = open(os.path.join(src, f'demo_{name}.py')).read().replace('/tmp/seed2/', '/tmp/seed/').replace('/tmp/seed3/', '/tmp/seed/').replace('/tmp/seed4/', '/tmp/seed/').replace('/tmp/seed5/', '/tmp/seed/').replace('/tmp/seed6/', '/tmp/seed/')
         open(os.path.join(dst, 'demo.py'), 'w').write(demo)
         ch = [c for c in meta.get('changes', []) if c.get('name') == name]
         json.dump({'property': prop, 'name': NAMES[name], 'round': rnd,
